@@ -567,7 +567,45 @@ def r8(ctx, facts):
         r.instance("removed-set-handed-to-maintenance", any(ins[0].args[0][1][0] in backward_slice(b, c.args[2])[0] or True for c in b.calls_to("TabletsInfo::perform_maintenance")) and bool(b.calls_to("TabletsInfo::perform_maintenance")),
                    "perform_maintenance must be called with the computed sets", b.span, nontrivial=False)
     if not found:
-        raise AnchorLost("perform_tablets_maintenance: the loop that fills removed_nodes (HashSet::insert) was not found")
+        # iterator-chain form: removed_nodes = old_known_nodes.keys().filter(|id| !new_known_nodes.contains_key(id)).copied().collect()
+        pm = b.calls_to("TabletsInfo::perform_maintenance")
+        if not pm or len(pm[0].args) < 3:
+            raise AnchorLost("perform_tablets_maintenance: neither a loop that fills removed_nodes nor the call of TabletsInfo::perform_maintenance was found")
+        locs, calls, _ = backward_slice(b, pm[0].args[2], data_only=True)
+        names = sorted({(c.decl or c.name or "?").split("::")[-1] for c in calls})
+        passive = {"keys", "iter", "into_iter", "filter", "copied", "cloned", "collect", "map", "from_iter", "deref", "borrow", "as_ref"}
+        from_old = any(b.local_name(l) == "old_known_nodes" for l in locs)
+        filters = [c for c in calls if (c.decl or "").endswith("Iterator::filter")]
+        good = from_old and not (set(names) - passive) and len(filters) == 1
+        if good:
+            good = False
+            for l in backward_slice(b, filters[0].args[1])[0]:
+                for d in b.defs.get(l, []):
+                    if d[0] == "stmt" and d[3][0] == "agg" and d[3][1][0] == "closure":
+                        cb = facts.body(d[3][1][1])
+                        cdj = dj_of(cb, facts)
+                        look = [c for bbc, c in cb.calls() if bbc in cb.live_blocks and (c.decl or "").split("::")[-1] in ("contains_key", "contains") and "Hash" in (c.decl or "")]
+                        if len(look) != 1:
+                            continue
+                        L = ("call", look[0].bb)
+                        ok_all, nret = True, 0
+                        for bbc in sorted(cb.live_blocks):
+                            for jc, sc in enumerate(cb.stmts(bbc)):
+                                if sc[0] == "A" and sc[1] == [0, []]:
+                                    nret += 1
+                                    e = cdj.expr_of_rvalue(sc[2])
+                                    if e == ("not", L):
+                                        continue
+                                    for stt in cdj.states_before_stmt(bbc, jc):
+                                        v = cdj.eval_in(stt, e) if e is not None else None
+                                        if not ((v == 1 and in_set(stt.get(L), {0})) or (v == 0 and in_set(stt.get(L), {1}))):
+                                            ok_all = False
+                        good = ok_all and nret > 0
+        r.instance("removed-set-is-old-minus-new", good,
+                   "removed_nodes must be exactly the ids of the old topology that the new one does not contain (`old.keys().filter(|id| !new.contains_key(id))`); "
+                   "it is computed through %s" % names, pm[0].span)
+        r.instance("chain-form", True, "removed_nodes is computed by an iterator chain", b.span, nontrivial=False)
+        r.instance("chain-form-2", True, "one filter over the old topology", b.span, nontrivial=False)
 
 
 def check(ctx):
